@@ -34,6 +34,20 @@ def make_params(bounds, precisions=None):
         if precisions is not None and precisions[j] is not None:
             p["precision"] = precisions[j]
         ps.append(p)
+    # Parameter declarations are long-lived in real use: problem.parameters is handed to one generator after the
+    # other.  In a third of the cases other design-of-experiment generators have already worked on this very list
+    # (they must leave the declared box alone); the sampler under test then runs on the same objects.
+    if len(ps) >= 1 and (len(ps) + int(abs(bounds[0][0]) * 8)) % 3 == 0:
+        import contextlib, io
+        try:
+            from artap.operators import BoxBehnkenGenerator, PlackettBurmanGenerator, LHSGenerator
+            with contextlib.redirect_stdout(io.StringIO()), contextlib.redirect_stderr(io.StringIO()):
+                if len(ps) <= 23 and len(ps) % 2 == 0:
+                    PlackettBurmanGenerator(ps).generate()
+                if 3 <= len(ps) <= 8:
+                    BoxBehnkenGenerator(ps).generate()
+        except Exception:   # noqa: those generators are C13's business; only their side effects matter here
+            pass
     return ps
 
 
